@@ -1,6 +1,6 @@
 (* C11 — proofs about Filter/Frontends.v: every front-end builds [filter_of a] from the rendering of an
    abstract filter [a]; [to_json] followed by [from_json] is the identity on loaded filters. *)
-From Coq Require Import List NArith Bool Lia.
+From Coq Require Import List NArith Bool Lia Arith PeanoNat.
 From AdltV Require Import Filter.Match Filter.MatchProofs Filter.Frontends Filter.FrontendsSpec.
 Import ListNotations.
 Open Scope N_scope.
@@ -155,14 +155,526 @@ Section FrontendsProofs.
     intros [Hx Hl]. rewrite (IH Hl), (N.mod_small _ _ Hx). reflexivity.
   Qed.
 
+  Definition jdefault (o : option jvalue) : jvalue := match o with Some v => v | None => JNull end.
+
+  Lemma bool_block (c b d : bool) :
+    (c = false -> b = d) ->
+    match as_bool (jdefault (opt_if c (JBool b))) with Some b' => b' | None => d end = b.
+  Proof. destruct c; cbn; [reflexivity|]. intros H. symmetry. apply H. reflexivity. Qed.
+
+  Lemma level_block (l : option N) :
+    opt_wf (fun l => l <=? 6) l = true ->
+    match as_u64 (jdefault (option_map JNum l)) with
+    | Some lvl => if lvl <=? 6 then Some (Some lvl) else None
+    | None => Some None
+    end = Some l.
+  Proof. destruct l as [l|]; cbn; [intros ->; reflexivity|reflexivity]. Qed.
+
+  Definition ic_of (p : option apayload) : bool := match p with Some p => ap_ic p | None => false end.
+
+  Lemma ic_block vb (p : option apayload) :
+    match as_bool (jdefault (match p with
+                             | Some p => opt_if (vb || ap_ic p) (JBool (ap_ic p))
+                             | None => opt_if vb (JBool false)
+                             end)) with
+    | Some b => b
+    | None => false
+    end = ic_of p.
+  Proof.
+    destruct p as [p|]; cbn [ic_of].
+    - apply bool_block. destruct vb, (ap_ic p); cbn; congruence.
+    - apply bool_block. reflexivity.
+  Qed.
+
+  Lemma payload_block (p : option apayload) (ic : bool) :
+    opt_wf (apayload_wf valid) p = true -> ic = ic_of p ->
+    match as_str (jdefault (match p with Some p => opt_if (ap_regex p) (JStr (ap_s p)) | None => None end)) with
+    | Some s =>
+        match compile_payload_regex valid (if ic then ci_prefix ++ s else s) with
+        | Some p' => Some (None, Some p', None)
+        | None => None
+        end
+    | None =>
+        match as_str (jdefault (match p with Some p => opt_if (negb (ap_regex p)) (JStr (ap_s p)) | None => None end)) with
+        | Some s => Some (Some s, None, if ic then Some s else None)
+        | None => Some (None, None, None)
+        end
+    end =
+    Some (match p with Some p => if ap_regex p then None else Some (ap_s p) | None => None end,
+          match p with
+          | Some p => if ap_regex p then Some (if ap_ic p then ci_prefix ++ ap_s p else ap_s p) else None
+          | None => None
+          end,
+          match p with
+          | Some p => if ap_regex p then None else if ap_ic p then Some (ap_s p) else None
+          | None => None
+          end).
+  Proof.
+    intros Hwf ->. destruct p as [[s r c]|]; cbn [ic_of ap_s ap_regex ap_ic]; [|reflexivity].
+    cbn [opt_wf] in Hwf. unfold apayload_wf in Hwf. cbn [ap_s ap_regex ap_ic] in Hwf.
+    destruct r; cbn [opt_if negb jdefault as_str].
+    - unfold compile_payload_regex. rewrite Hwf. reflexivity.
+    - reflexivity.
+  Qed.
+
+  Lemma lifecycles_block (l : option (list N)) :
+    opt_wf (forallb (fun l => l <? 2 ^ 32)) l = true ->
+    option_map (fun lcs => flat_map (fun e => match e with ENum n => [n mod 2 ^ 32] | EOther => [] end) lcs)
+      (as_array (jdefault (option_map (fun l => JArr (map ENum l)) l))) = l.
+  Proof.
+    destruct l as [l|]; cbn [opt_wf option_map jdefault as_array]; [|reflexivity].
+    intros H. rewrite (lifecycles_roundtrip l H). reflexivity.
+  Qed.
+
+  Lemma vmm_block (t : option atype) :
+    match as_u64 (jdefault (match t with Some (AVmm v) => Some (JNum v) | _ => None end)) with
+    | Some v => Some (N.land v 255, if N.land (N.shiftr (N.land v 255) 4) 15 =? 0 then 15 else 255)
+    | None =>
+        match as_u64 (jdefault (match t with Some (AMstp x) => Some (JNum x) | _ => None end)) with
+        | Some v => Some (N.land (N.shiftl (N.land v 7) 1) 255, 14)
+        | None => None
+        end
+    end = option_map atype_vm t.
+  Proof. destruct t as [[x|v]|]; reflexivity. Qed.
+
+  (* the blocks of from_json on the rendering of [a] *)
+  Section JsonOf.
+    Variable vb : bool.
+    Variable a : afilter.
+    Hypothesis Hwf : awf valid a = true.
+    Let o := obj_of (json_fields vb a).
+
+    Lemma jo_kind : kind_of_u64 (as_u64 (jget KType o)) = Some (a_kind a).
+    Proof.
+      destruct (awf_parts a Hwf) as (Hk & _). unfold o. jsimp. cbn [as_u64]. exact (kind_of_u64_ok _ Hk).
+    Qed.
+
+    Lemma jo_enabled : match as_bool (jget KEnabled o) with Some b => b | None => true end = a_enabled a.
+    Proof. unfold o. jsimp. apply bool_block. destruct vb, (a_enabled a); cbn; congruence. Qed.
+
+    Lemma jo_negate : match as_bool (jget KNot o) with Some b => b | None => false end = a_negate a.
+    Proof. unfold o. jsimp. apply bool_block. destruct vb, (a_negate a); cbn; congruence. Qed.
+
+    Lemma jo_at_load : match as_bool (jget KAtLoadTime o) with Some b => b | None => false end = false.
+    Proof. unfold o. jsimp. reflexivity. Qed.
+
+    Lemma jo_ecu : json_id valid o KEcu KEcuIsRegex = Some (option_map idcrit_of (a_ecu a)).
+    Proof.
+      destruct (awf_parts a Hwf) as (_ & H & _). unfold o, json_id. jsimp.
+      exact (json_id_block vb (a_ecu a) _ H eq_refl).
+    Qed.
+    Lemma jo_apid : json_id valid o KApid KApidIsRegex = Some (option_map idcrit_of (a_apid a)).
+    Proof.
+      destruct (awf_parts a Hwf) as (_ & _ & H & _). unfold o, json_id. jsimp.
+      exact (json_id_block vb (a_apid a) _ H eq_refl).
+    Qed.
+    Lemma jo_ctid : json_id valid o KCtid KCtidIsRegex = Some (option_map idcrit_of (a_ctid a)).
+    Proof.
+      destruct (awf_parts a Hwf) as (_ & _ & _ & H & _). unfold o, json_id. jsimp.
+      exact (json_id_block vb (a_ctid a) _ H eq_refl).
+    Qed.
+
+    Lemma jo_ic : match as_bool (jget KIgnoreCasePayload o) with Some b => b | None => false end = ic_of (a_payload a).
+    Proof. unfold o. jsimp. exact (ic_block vb (a_payload a)). Qed.
+
+    Lemma jo_payload :
+      json_payload valid o (ic_of (a_payload a)) =
+      Some (f_payload (filter_of a), f_payload_regex (filter_of a), f_payload_as_regex (filter_of a)).
+    Proof.
+      destruct (awf_parts a Hwf) as (_ & _ & _ & _ & _ & _ & _ & H & _). unfold o, json_payload. jsimp.
+      cbn [filter_of f_payload f_payload_regex f_payload_as_regex].
+      destruct (a_payload a) as [[s r c]|]; cbn [ic_of ap_s ap_regex ap_ic]; [|reflexivity].
+      cbn [opt_wf] in H. unfold apayload_wf in H. cbn [ap_s ap_regex ap_ic] in H.
+      destruct r; cbn [opt_if negb as_str].
+      - unfold compile_payload_regex. destruct c; rewrite H; reflexivity.
+      - reflexivity.
+    Qed.
+
+    Lemma jo_lmin : json_level o KLogLevelMin = Some (a_lmin a).
+    Proof.
+      destruct (awf_parts a Hwf) as (_ & _ & _ & _ & _ & H & _). unfold o, json_level. jsimp.
+      exact (level_block _ H).
+    Qed.
+    Lemma jo_lmax : json_level o KLogLevelMax = Some (a_lmax a).
+    Proof.
+      destruct (awf_parts a Hwf) as (_ & _ & _ & _ & _ & _ & H & _). unfold o, json_level. jsimp.
+      exact (level_block _ H).
+    Qed.
+
+    Lemma jo_lifecycles : json_lifecycles o = a_lcs a.
+    Proof.
+      destruct (awf_parts a Hwf) as (_ & _ & _ & _ & _ & _ & _ & _ & H). unfold o, json_lifecycles. jsimp.
+      exact (lifecycles_block _ H).
+    Qed.
+
+    Lemma jo_vmm : json_vmm o = option_map atype_vm (a_type a).
+    Proof. unfold o, json_vmm. jsimp. exact (vmm_block (a_type a)). Qed.
+  End JsonOf.
+
   Theorem json_loads vb a : awf valid a = true -> from_json_kv valid (render_json vb a) = Some (filter_of a).
   Proof.
-    intros Hwf. destruct (awf_parts a Hwf) as (Hk & Hecu & Hapid & Hctid & Hty & Hmin & Hmax & Hpl & Hlcs).
-    unfold render_json, from_json_kv, json_id, json_payload, json_level, json_lifecycles, json_vmm.
-    jsimp.
-    cbn [as_u64]. rewrite (kind_of_u64_ok _ Hk). cbn [obind].
-    rewrite (json_id_block vb (a_ecu a) _ Hecu eq_refl). cbn [obind].
-    rewrite (json_id_block vb (a_apid a) _ Hapid eq_refl). cbn [obind].
-    rewrite (json_id_block vb (a_ctid a) _ Hctid eq_refl). cbn [obind].
-  Abort.
+    intros Hwf. unfold render_json, from_json_kv.
+    rewrite (jo_kind vb a Hwf), (jo_enabled vb a), (jo_negate vb a), (jo_at_load vb a), (jo_ecu vb a Hwf),
+      (jo_apid vb a Hwf), (jo_ctid vb a Hwf), (jo_ic vb a), (jo_payload vb a Hwf), (jo_lmin vb a Hwf),
+      (jo_lmax vb a Hwf), (jo_lifecycles vb a Hwf), (jo_vmm vb a).
+    reflexivity.
+  Qed.
+
+  (* ---------------------------------------------------------------- DLF *)
+  Lemma parse_u8_digit n : n <= 9 -> parse_u8 (digit n) = Some n.
+  Proof.
+    intros H.
+    assert (E : n = 0 \/ n = 1 \/ n = 2 \/ n = 3 \/ n = 4 \/ n = 5 \/ n = 6 \/ n = 7 \/ n = 8 \/ n = 9) by lia.
+    repeat (destruct E as [E|E]; [subst n; reflexivity|]). subst n. reflexivity.
+  Qed.
+
+  Lemma is_flag b : text_eqb (flag b) [49] = b.
+  Proof. destruct b; reflexivity. Qed.
+
+  Section DlfOf.
+    Variable vb : bool.
+    Variable a : afilter.
+    Hypothesis Hwf : awf valid a = true.
+    Hypothesis Hex : dlf_expressible a = true.
+    Let d := dobj_of (dlf_fields vb a).
+
+    Lemma dlf_lookup k : dget k d = dfield_of k (dlf_fields vb a).
+    Proof. apply dget_dobj_of. reflexivity. Qed.
+
+    Ltac dsimp :=
+      unfold is_one; rewrite !dlf_lookup;
+      cbn [dfield_of dlf_fields dlf_id_fields dlf_level_fields app dkey_eqb dkey_idx N.eqb Pos.eqb option_map].
+
+    Lemma do_kind : dlf_kind d = a_kind a.
+    Proof.
+      destruct (awf_parts a Hwf) as (Hk & _). unfold dlf_kind. dsimp.
+      assert (Hk9 : a_kind a <= 9) by lia.
+      destruct (vb || negb (a_kind a =? 0)) eqn:E; cbn [opt_if].
+      - rewrite (parse_u8_digit _ Hk9).
+        destruct (a_kind a) as [|p]; [reflexivity|].
+        destruct p as [[p|p|]|[p|p|]|]; try reflexivity; exfalso; lia.
+      - apply orb_false_iff in E. destruct E as [_ E]. apply negb_false_iff, N.eqb_eq in E. symmetry. exact E.
+    Qed.
+
+    Lemma do_enabled : is_one DEnableFilter d = a_enabled a.
+    Proof. dsimp. apply is_flag. Qed.
+
+    Lemma do_id ken kval kre c :
+      opt_wf (aid_wf valid) c = true ->
+      (kre = None -> match c with Some c => ai_regex c = false | None => True end) ->
+      dget ken d = match c with Some _ => Some (flag true) | None => opt_if vb (flag false) end ->
+      dget kval d = match c with Some c => Some (ai_s c) | None => opt_if vb [88; 88; 88; 88] end ->
+      match kre with
+      | Some kr => dget kr d = match c with
+                               | Some c => opt_if (vb || negb (eqb (contains_regex_chars (ai_s c)) (ai_regex c))) (flag (ai_regex c))
+                               | None => None
+                               end
+      | None => True
+      end ->
+      dlf_id valid d ken kval kre = option_map idcrit_of c.
+    Proof.
+      intros Hc Hnore Hen Hval Hre. unfold dlf_id, is_one. rewrite Hen, Hval.
+      destruct c as [c|]; cbn [option_map].
+      - cbn [text_eqb flag N.eqb Pos.eqb andb]. cbn [opt_wf] in Hc.
+        assert (E : match kre with
+                    | Some kr => match dget kr d with Some ir => text_eqb ir [49] | None => contains_regex_chars (ai_s c) end
+                    | None => false
+                    end = ai_regex c).
+        { destruct kre as [kr|].
+          - rewrite Hre. destruct vb; cbn [orb opt_if]; [apply is_flag|].
+            destruct (contains_regex_chars (ai_s c)), (ai_regex c); reflexivity.
+          - symmetry. exact (Hnore eq_refl). }
+        rewrite E. exact (c4_from_str_wf c Hc).
+      - destruct vb; reflexivity.
+    Qed.
+
+    Lemma do_ecu : dlf_id valid d DEnableEcuId DEcuId None = option_map idcrit_of (a_ecu a).
+    Proof.
+      destruct (awf_parts a Hwf) as (_ & H & _).
+      apply do_id; [exact H| | | |exact I].
+      - intros _. unfold dlf_expressible in Hex. rewrite !andb_true_iff in Hex. destruct Hex as [[[_ _] He] _].
+        destruct (a_ecu a) as [c|]; [|exact I]. apply negb_true_iff in He. exact He.
+      - dsimp. reflexivity.
+      - dsimp. reflexivity.
+    Qed.
+    Lemma do_apid :
+      dlf_id valid d DEnableApplicationId DApplicationId (Some DEnableRegexpAppid) = option_map idcrit_of (a_apid a).
+    Proof.
+      destruct (awf_parts a Hwf) as (_ & _ & H & _).
+      apply do_id; [exact H|discriminate| | |]; dsimp; reflexivity.
+    Qed.
+    Lemma do_ctid :
+      dlf_id valid d DEnableContextId DContextId (Some DEnableRegexpContext) = option_map idcrit_of (a_ctid a).
+    Proof.
+      destruct (awf_parts a Hwf) as (_ & _ & _ & H & _).
+      apply do_id; [exact H|discriminate| | |]; dsimp; reflexivity.
+    Qed.
+
+    Lemma do_ctrl : (if is_one DEnableControlMsgs d then Some (6, 14) else None) = option_map atype_vm (a_type a).
+    Proof.
+      dsimp. unfold dlf_expressible in Hex. rewrite !andb_true_iff in Hex. destruct Hex as [_ Ht].
+      destruct (a_type a) as [[x|v]|].
+      - destruct x as [|p]; [discriminate|]. destruct p as [[p|p|]|[p|p|]|]; try discriminate. reflexivity.
+      - discriminate.
+      - destruct vb; reflexivity.
+    Qed.
+
+    Lemma do_level ken kval l :
+      opt_wf (fun l => l <=? 6) l = true ->
+      dget ken d = match l with Some _ => Some (flag true) | None => opt_if vb (flag false) end ->
+      dget kval d = match l with Some l => Some (digit l) | None => opt_if vb (digit 3) end ->
+      dlf_level d ken kval = l.
+    Proof.
+      intros Hl Hen Hval. unfold dlf_level, is_one. rewrite Hen, Hval. destruct l as [l|].
+      - cbn [text_eqb flag N.eqb Pos.eqb andb]. cbn [opt_wf] in Hl. assert (l <= 9) by (apply N.leb_le in Hl; lia).
+        rewrite (parse_u8_digit l) by assumption. rewrite Hl. reflexivity.
+      - destruct vb; reflexivity.
+    Qed.
+    Lemma do_lmin : dlf_level d DEnableLogLevelMin DLogLevelMin = a_lmin a.
+    Proof.
+      destruct (awf_parts a Hwf) as (_ & _ & _ & _ & _ & H & _). apply do_level; [exact H| |]; dsimp; reflexivity.
+    Qed.
+    Lemma do_lmax : dlf_level d DEnableLogLevelMax DLogLevelMax = a_lmax a.
+    Proof.
+      destruct (awf_parts a Hwf) as (_ & _ & _ & _ & _ & _ & H & _). apply do_level; [exact H| |]; dsimp; reflexivity.
+    Qed.
+
+    Lemma do_payload_on : is_one DEnablePayloadText d = match a_payload a with Some _ => true | None => false end.
+    Proof. dsimp. destruct (a_payload a); [reflexivity|destruct vb; reflexivity]. Qed.
+    Lemma do_payload_ic : is_one DIgnoreCasePayload d = match a_payload a with Some p => ap_ic p | None => vb end.
+    Proof.
+      dsimp. destruct (a_payload a) as [p|]; [|destruct vb; reflexivity].
+      destruct vb; cbn [orb opt_if]; [apply is_flag|]. destruct (ap_ic p); reflexivity.
+    Qed.
+    Lemma do_payload_re : is_one DEnableRegexpPayload d = match a_payload a with Some p => ap_regex p | None => false end.
+    Proof.
+      dsimp. destruct (a_payload a) as [p|]; [|reflexivity].
+      destruct vb; cbn [orb opt_if]; [apply is_flag|]. destruct (ap_regex p); reflexivity.
+    Qed.
+    Lemma do_payload_text :
+      dget DPayloadText d = match a_payload a with Some p => Some (ap_s p) | None => opt_if vb [102; 111; 111] end.
+    Proof. dsimp. reflexivity. Qed.
+
+    Theorem dlf_loads_in : from_dlf_attrs valid d = filter_of a.
+    Proof.
+      unfold from_dlf_attrs.
+      rewrite do_kind, do_enabled, do_ecu, do_apid, do_ctid, do_ctrl, do_lmin, do_lmax,
+        do_payload_on, do_payload_ic, do_payload_re, do_payload_text.
+      destruct (awf_parts a Hwf) as (_ & _ & _ & _ & _ & _ & _ & Hp & _).
+      unfold dlf_expressible in Hex. rewrite !andb_true_iff in Hex. destruct Hex as [[[Hn Hl] _] _].
+      apply negb_true_iff in Hn. unfold filter_of. rewrite Hn.
+      destruct (a_lcs a) as [l|]; [discriminate|].
+      destruct (a_payload a) as [[s r c]|]; cbn [ap_s ap_regex ap_ic andb].
+      - cbn [opt_wf] in Hp. unfold apayload_wf in Hp. cbn [ap_s ap_regex ap_ic] in Hp.
+        destruct r.
+        + unfold compile_payload_regex. destruct c; rewrite Hp; reflexivity.
+        + destruct c; reflexivity.
+      - reflexivity.
+    Qed.
+  End DlfOf.
+
+  Theorem dlf_loads vb a :
+    awf valid a = true -> dlf_expressible a = true -> from_dlf_attrs valid (render_dlf vb a) = filter_of a.
+  Proof. intros Hwf Hex. exact (dlf_loads_in vb a Hwf Hex). Qed.
+
+  (* ---------------------------------------------------------------- dlt-convert list *)
+  Lemma conv_take_padded n s rest :
+    (List.length s <= n)%nat -> existsb (N.eqb 45) s = false ->
+    conv_take n (s ++ repeat 45 (n - List.length s)%nat ++ rest) = s.
+  Proof.
+    revert s. induction n as [|n IH]; intros s Hl Hd.
+    - destruct s; [reflexivity|cbn in Hl; lia].
+    - destruct s as [|b s].
+      + reflexivity.
+      + cbn [existsb] in Hd. apply orb_false_iff in Hd. destruct Hd as [Hb Hd].
+        cbn [app conv_take List.length Nat.sub]. rewrite N.eqb_sym in Hb. rewrite Hb.
+        rewrite IH; [reflexivity|cbn in Hl; lia|exact Hd].
+  Qed.
+
+  Lemma pad_dash_length s : (List.length s <= 4)%nat -> List.length (pad_dash s) = 4%nat.
+  Proof. intros H. unfold pad_dash. rewrite app_length, repeat_length. lia. Qed.
+
+  Lemma length4 {A} (l : list A) : List.length l = 4%nat -> exists a b c d, l = [a; b; c; d].
+  Proof.
+    destruct l as [|a [|b [|c [|d [|e l]]]]]; cbn; intros H; try discriminate. exists a, b, c, d. reflexivity.
+  Qed.
+
+  Lemma conv_id_ok_parts c :
+    conv_id_ok c = true ->
+    exists x, c = Some x /\ ai_regex x = false /\ (List.length (ai_s x) <= 4)%nat /\ existsb (N.eqb 45) (ai_s x) = false.
+  Proof.
+    destruct c as [x|]; cbn [conv_id_ok]; [|discriminate].
+    rewrite !andb_true_iff, !negb_true_iff. intros [[Hr Hl] Hd]. exists x.
+    split; [reflexivity|]. split; [exact Hr|]. split; [apply Nat.leb_le; exact Hl|exact Hd].
+  Qed.
+
+  Lemma only_ids_parts a :
+    only_ids a = true ->
+    a_kind a = 0 /\ a_enabled a = true /\ a_negate a = false /\ a_type a = None /\ a_lmin a = None /\
+    a_lmax a = None /\ a_payload a = None /\ a_lcs a = None.
+  Proof.
+    unfold only_ids. rewrite !andb_true_iff, N.eqb_eq, negb_true_iff. intros [[[Hk He] Hn] Hr].
+    destruct (a_type a), (a_lmin a), (a_lmax a), (a_payload a), (a_lcs a); try discriminate. tauto.
+  Qed.
+
+  Theorem conv_loads sep1 sep2 a :
+    conv_expressible a = true -> from_convert_format (render_conv sep1 sep2 a) = [filter_of a].
+  Proof.
+    unfold conv_expressible. rewrite !andb_true_iff. intros [[[Ho He] Ha] Hc].
+    destruct (only_ids_parts a Ho) as (Hk & Hen & Hn & Ht & Hmin & Hmax & Hp & Hl).
+    destruct (conv_id_ok_parts _ Ha) as (xa & Exa & Hra & Hla & Hda).
+    destruct (conv_id_ok_parts _ Hc) as (xc & Exc & Hrc & Hlc & Hdc).
+    destruct (a_ecu a) as [e|] eqn:Eecu; [discriminate|].
+    assert (Ta : conv_take 4 (render_conv sep1 sep2 a) = ai_s xa).
+    { unfold render_conv, pad_dash. rewrite Exa. cbn [aid_text]. rewrite <- app_assoc.
+      apply conv_take_padded; assumption. }
+    destruct (length4 _ (pad_dash_length _ Hla)) as (a0 & a1 & a2 & a3 & Epa).
+    destruct (length4 _ (pad_dash_length _ Hlc)) as (c0 & c1 & c2 & c3 & Epc).
+    assert (Tc : conv_take 4 (skipn 5 (render_conv sep1 sep2 a)) = ai_s xc).
+    { unfold render_conv. rewrite Exa, Exc. cbn [aid_text]. rewrite Epa. cbn [app skipn].
+      unfold pad_dash. rewrite <- app_assoc. apply conv_take_padded; assumption. }
+    unfold from_convert_format.
+    assert (Elen : List.length (render_conv sep1 sep2 a) = 10%nat).
+    { unfold render_conv. rewrite Exa, Exc. cbn [aid_text]. rewrite Epa, Epc. reflexivity. }
+    rewrite Elen. cbn [conv_go]. rewrite Elen. cbn [Nat.leb]. rewrite Ta, Tc.
+    assert (Eskip : skipn 10 (render_conv sep1 sep2 a) = []).
+    { unfold render_conv. rewrite Exa, Exc. cbn [aid_text]. rewrite Epa, Epc. reflexivity. }
+    rewrite Eskip. cbn [List.length Nat.leb].
+    unfold conv_filter, filter_of, filter_new. cbn [f_kind f_enabled f_at_load_time f_negate f_ecu f_vmm f_payload
+      f_payload_regex f_ignore_case f_payload_as_regex f_lmin f_lmax f_lifecycles].
+    rewrite Hk, Hen, Hn, Ht, Hmin, Hmax, Hp, Hl, Eecu, Exa, Exc. cbn [option_map]. unfold idcrit_of. rewrite Hra, Hrc.
+    reflexivity.
+  Qed.
+
+  (* ---------------------------------------------------------------- ECU:APID:CTID *)
+  Lemma split_colon_nocolon s cur rest :
+    existsb (N.eqb 58) s = false -> split_colon cur (s ++ rest) = split_colon (rev s ++ cur) rest.
+  Proof.
+    revert cur. induction s as [|c s IH]; intros cur H; [reflexivity|].
+    cbn [existsb] in H. apply orb_false_iff in H. destruct H as [Hc Hs].
+    cbn [app split_colon]. rewrite N.eqb_sym in Hc. rewrite Hc. rewrite (IH (c :: cur) Hs).
+    cbn [rev]. rewrite <- app_assoc. reflexivity.
+  Qed.
+
+  Lemma eac_id_ok_parts c :
+    eac_id_ok c = true ->
+    existsb (N.eqb 58) (aid_text c) = false /\
+    match c with Some x => ai_s x <> [] /\ contains_regex_chars (ai_s x) = ai_regex x | None => True end.
+  Proof.
+    destruct c as [x|]; cbn [eac_id_ok aid_text]; [|intros _; split; [reflexivity|exact I]].
+    rewrite !andb_true_iff, !negb_true_iff. intros [[He Hc] Hr]. split; [exact Hc|]. split.
+    - intros E. rewrite E in He. discriminate.
+    - apply eqb_prop in Hr. exact Hr.
+  Qed.
+
+  Lemma eac_part_ok c :
+    opt_wf (aid_wf valid) c = true -> eac_id_ok c = true ->
+    eac_part valid (aid_text c) = Some (option_map idcrit_of c).
+  Proof.
+    intros Hwf Hok. destruct (eac_id_ok_parts c Hok) as [_ H]. destruct c as [x|]; cbn [aid_text option_map]; [|reflexivity].
+    destruct H as [Hne Hr]. cbn [opt_wf] in Hwf. unfold eac_part. destruct (ai_s x) as [|b r] eqn:E; [congruence|].
+    pose proof (c4_from_str_wf x Hwf) as Hc4. rewrite E in Hc4. rewrite Hr, Hc4. reflexivity.
+  Qed.
+
+  Theorem eac_loads a :
+    awf valid a = true -> eac_expressible a = true -> eac_from_str valid (render_eac a) = Some (filter_of a).
+  Proof.
+    intros Hwf. unfold eac_expressible. rewrite !andb_true_iff. intros [[[Ho He] Ha] Hc].
+    destruct (awf_parts a Hwf) as (_ & We & Wa & Wc & _).
+    destruct (only_ids_parts a Ho) as (Hk & Hen & Hn & Ht & Hmin & Hmax & Hp & Hl).
+    destruct (eac_id_ok_parts _ He) as [Ce _]. destruct (eac_id_ok_parts _ Ha) as [Ca _].
+    destruct (eac_id_ok_parts _ Hc) as [Cc _].
+    assert (Es : split_colon [] (render_eac a) = [aid_text (a_ecu a); aid_text (a_apid a); aid_text (a_ctid a)]).
+    { unfold render_eac. rewrite (split_colon_nocolon _ [] _ Ce). cbn [app split_colon N.eqb Pos.eqb].
+      rewrite app_nil_r, rev_involutive. f_equal.
+      rewrite (split_colon_nocolon _ [] _ Ca). cbn [app split_colon N.eqb Pos.eqb].
+      rewrite app_nil_r, rev_involutive. f_equal.
+      rewrite <- (app_nil_r (aid_text (a_ctid a))) at 1. rewrite (split_colon_nocolon _ [] _ Cc).
+      cbn [split_colon]. rewrite app_nil_r, rev_involutive. reflexivity. }
+    unfold eac_from_str. destruct (render_eac a) as [|b r] eqn:Er.
+    - unfold render_eac in Er. destruct (aid_text (a_ecu a)); discriminate.
+    - rewrite Es. cbn [nth]. rewrite (eac_part_ok _ We He), (eac_part_ok _ Wa Ha), (eac_part_ok _ Wc Hc). cbn [obind].
+      unfold filter_of, filter_new. cbn [f_kind f_enabled f_at_load_time f_negate f_ecu f_vmm f_payload
+        f_payload_regex f_ignore_case f_payload_as_regex f_lmin f_lmax f_lifecycles].
+      rewrite Hk, Hen, Hn, Ht, Hmin, Hmax, Hp, Hl. reflexivity.
+  Qed.
+
+  (* ---------------------------------------------------------------- the common filter means the abstract filter *)
 End FrontendsProofs.
+
+(* finite exhaustive checks over bytes *)
+Definition nrange (n : nat) : list N := map N.of_nat (seq 0 n).
+Lemma forallb_nrange (f : N -> bool) n : forallb f (nrange n) = true -> forall v, v < N.of_nat n -> f v = true.
+Proof.
+  intros H v Hv. unfold nrange in H. rewrite forallb_forall in H. apply H.
+  apply in_map_iff. exists (N.to_nat v). split; [apply N2Nat.id|]. apply in_seq. lia.
+Qed.
+
+Lemma type_mstp_readable x v :
+  x < 8 -> v < 256 -> type_holds (atype_vm (AMstp x)) v = N.eqb (mstp_of v) x.
+Proof.
+  intros Hx Hv.
+  assert (H : forallb (fun x => forallb (fun v => eqb (type_holds (atype_vm (AMstp x)) v) (N.eqb (mstp_of v) x)) (nrange 256))
+                (nrange 8) = true) by (vm_compute; reflexivity).
+  pose proof (forallb_nrange _ _ H x Hx) as H1. cbv beta in H1.
+  pose proof (forallb_nrange _ _ H1 v Hv) as H2. cbv beta in H2. apply eqb_prop in H2. exact H2.
+Qed.
+
+Lemma type_vmm_readable w v :
+  w < 256 -> v < 256 ->
+  type_holds (atype_vm (AVmm w)) v = (if N.eqb (mtin_of w) 0 then N.eqb (N.land v 15) w else N.eqb v w).
+Proof.
+  intros Hw Hv.
+  assert (H : forallb (fun w => forallb (fun v => eqb (type_holds (atype_vm (AVmm w)) v)
+                                               (if N.eqb (mtin_of w) 0 then N.eqb (N.land v 15) w else N.eqb v w))
+                                  (nrange 256)) (nrange 256) = true) by (vm_compute; reflexivity).
+  pose proof (forallb_nrange _ _ H w Hw) as H1. cbv beta in H1.
+  pose proof (forallb_nrange _ _ H1 v Hv) as H2. cbv beta in H2. apply eqb_prop in H2. exact H2.
+Qed.
+
+Section Meaning.
+  Variable re : engine -> pattern -> text -> bool.
+
+  Lemma id_crit_meaning (c : option aid) (v : option id4) :
+    holds (option_map idcrit_of c) v (id_holds re) = holds c v (aid_holds re).
+  Proof.
+    destruct c as [c|]; [|reflexivity]. destruct v as [v|]; [|reflexivity].
+    cbn [option_map holds]. unfold idcrit_of, aid_holds, id_holds. destruct (ai_regex c); reflexivity.
+  Qed.
+
+  Lemma type_crit_meaning (t : option atype) (v : option N) :
+    opt_wf atype_wf t = true -> match v with Some x => x < 256 | None => True end ->
+    holds (option_map atype_vm t) v type_holds = holds t v atype_holds.
+  Proof.
+    intros Ht Hv. destruct t as [t|]; [|reflexivity]. destruct v as [v|]; [|reflexivity].
+    cbn [option_map holds opt_wf] in *. destruct t as [x|w]; cbn [atype_wf atype_holds] in *; apply N.ltb_lt in Ht.
+    - apply type_mstp_readable; assumption.
+    - apply type_vmm_readable; assumption.
+  Qed.
+
+  Lemma payload_crit_meaning (a : afilter) (t : option text) :
+    holds (payload_crit (filter_of a)) t (payload_holds re) = holds (a_payload a) t (apayload_holds re).
+  Proof.
+    unfold payload_crit, filter_of. cbn [f_payload f_payload_regex f_payload_as_regex].
+    destruct (a_payload a) as [[s r c]|]; cbn [ap_s ap_regex ap_ic]; [|reflexivity].
+    unfold apayload_holds. cbn [ap_s ap_regex ap_ic].
+    destruct r, c, t; reflexivity.
+  Qed.
+
+  Theorem filter_of_meaning valid a m :
+    awf valid a = true -> msg_wf m = true -> matches re (filter_of a) m = aspec re a m.
+  Proof.
+    intros Hwf Hm. rewrite matches_is_spec. unfold matches_spec, aspec, criteria_hold, acriteria_hold.
+    destruct (awf_parts valid a Hwf) as (_ & _ & _ & _ & Ht & _).
+    rewrite payload_crit_meaning.
+    cbn [filter_of f_enabled f_negate f_ecu f_apid f_ctid f_vmm f_lmin f_lmax].
+    rewrite !id_crit_meaning, (type_crit_meaning (a_type a) (msg_vmm m) Ht).
+    - reflexivity.
+    - unfold msg_vmm, msg_wf in *. destruct (m_ext m) as [e|]; cbn [option_map]; [apply N.ltb_lt; exact Hm|exact I].
+  Qed.
+End Meaning.
+
+Section FrontendsProofs2.
+  Variable valid : engine -> pattern -> bool.
+End FrontendsProofs2.
+
